@@ -60,7 +60,7 @@ def run(ctx):
     # a rollback next to a running end_merge task of the old updater (F43): the stale task must be over before the new writer exists
     vlib.mc_check(ctx, "StorageProto", "StorageProto_negF43.cfg", expect_violation="NoCommitLost", timeout=120, workers=2)
     vlib.mc_check(ctx, "StorageProto", "StorageProto_negF43b.cfg", expect_violation="NeverDeletesNeeded", timeout=120, workers=2)
-    vlib.run_bin("merge_driver", ["gated", "--seed", ctx.seed, "--runs", 27 if ctx.quick else 270, "--out", gp], timeout=900)
+    vlib.run_bin("merge_driver", ["gated", "--seed", ctx.seed, "--runs", 30 if ctx.quick else 300, "--out", gp], timeout=900)
     gev = vlib.read_ndjson(gp)
     gruns = prep(gev)
     realised = sum(1 for e in gev if e.get("ev") == "schedule" and e.get("realised"))
